@@ -203,3 +203,8 @@ def evaluate(case):
         res.label('victim-phase:' + phase)
     res.sample = dict(outcome=trace.outcome, victims=vs[:6], executions=res.executions)
     return res
+
+
+def sweeps(tier):
+    # deterministic part: flat schedulers of 9 .. 1025 members (just above powers of two)
+    return [S.ladder_sweep(['critical', 'timeout'])]
